@@ -339,6 +339,16 @@ func tknWalkCached(ct []byte) ([]leField, []leField) {
 		return v[0], v[1]
 	}
 	f, e := tknWalk(ct)
+	inRange := func(fs []leField) []leField {
+		var o []leField
+		for _, x := range fs {
+			if x.off >= 0 && x.off+x.w <= len(ct) {
+				o = append(o, x)
+			}
+		}
+		return o
+	}
+	f, e = inRange(f), inRange(e)
 	tknWalkCache[k] = [2][]leField{f, e}
 	return f, e
 }
